@@ -9,6 +9,4 @@ CONSTANTS
   UnknownKey = 98
   DefaultVal = 7
 VIEW TView
-INVARIANT TKeysUnique
-INVARIANT TContentMatch
 CHECK_DEADLOCK FALSE
